@@ -764,6 +764,7 @@ protected:
       std::string headerSection = dataStr.substr(0, headerEnd);
       std::size_t contentLength = 0;
       bool isChunked = false;
+      bool haveContentLength = false;
 
       // Parse headers
       std::istringstream headerStream(headerSection);
@@ -792,6 +793,20 @@ protected:
 
           if (key == "content-length")
           {
+            // RFC 9112 6.3 / RFC 9110 8.6: Content-Length = 1*DIGIT. std::stoull alone also accepts
+            // leading whitespace, a sign and trailing junk, and a later field line silently replaced
+            // an earlier one: reject non-numeric values and conflicting duplicates instead of guessing.
+            const bool numeric = !value.empty() && value.size() <= 19 &&
+                                 value.find_first_not_of("0123456789") == std::string::npos;
+            if (!numeric || (haveContentLength && contentLength != std::stoull(value)))
+            {
+              iora::core::Logger::error("HttpServer: Invalid or conflicting "
+                                        "content-length header for session " +
+                                        std::to_string(sid) + " - closing connection");
+              closeSession(sid);
+              return;
+            }
+            haveContentLength = true;
             try
             {
               contentLength = std::stoull(value);
